@@ -160,8 +160,30 @@ func tryReplay(prog *Program, v violation) (bool, string) {
 	if drv == nil {
 		return false, "no replay driver for " + key + "; the model below is the verifier's counterexample (it may describe a loop-head or post-havoc state)\n"
 	}
-	if v.oblRef == nil {
+	if v.oblRef == nil && len(drv.Gets) > 0 {
 		return false, "replay: obligation text unavailable\n"
+	}
+	if v.oblRef == nil {
+		// a contract that no longer binds to the code: the driver needs no model, run its default instance
+		dir, err := os.MkdirTemp("", "gbv-replay-")
+		if err != nil {
+			return false, "replay: " + err.Error() + "\n"
+		}
+		defer os.RemoveAll(dir)
+		body := tmplVar.ReplaceAllStringFunc(drv.Body, func(m string) string {
+			if m[2:len(m)-2] == "OBLIGATION" {
+				return fmt.Sprintf("%q", v.obl)
+			}
+			return "0"
+		})
+		ok, testOut := runOverlayTest(prog.RepoDir, drv.Pkg, body, dir)
+		rep := "replay driver: " + filepath.Base(drv.File) + " (default instance: the contract does not bind, there is no solver model)\n---- generated test ----\n" + body + "\n---- go test output ----\n" + testOut + "\n"
+		if ok {
+			rep += "RESULT: the violation was reproduced on the real code\n"
+		} else {
+			rep += "RESULT: the default instance did not reproduce a violation on the real code\n"
+		}
+		return ok, rep
 	}
 	// evaluate the requested terms in the model
 	txt := obligationText(v.oblRef, true)
